@@ -66,8 +66,7 @@ static econf_err do_set(econf_file *f, const char *key, int type, uint64_t bits)
 static int do_get_check(econf_file *f, const char *key, int type, uint64_t bits, char *msg, size_t cap)
 {
   econf_err rc;
-  static int flip;
-  errno = (flip ^= 1) ? ERANGE : EINVAL;   /* a getter must not depend on what an earlier call left in errno */
+  errno = ERANGE;   /* a getter must not depend on what an earlier call left in errno (ERANGE is the value the getters test for) */
   switch (type) {
   case T_I32: { int32_t v = 0; rc = econf_getIntValue(f, NULL, key, &v); if (rc || v != (int32_t)(uint32_t)bits) { snprintf(msg, cap, "rc=%d got %" PRId32, (int)rc, v); return 1; } return 0; }
   case T_U32: { uint32_t v = 0; rc = econf_getUIntValue(f, NULL, key, &v); if (rc || v != (uint32_t)bits) { snprintf(msg, cap, "rc=%d got %" PRIu32, (int)rc, v); return 1; } return 0; }
